@@ -80,14 +80,16 @@ def main():
     if SQL_ASYNC_AS_CODED and not sql_async_seen:
         machinery.append("the model says SQLRepository.Append is asynchronous (SQL_ASYNC_AS_CODED) but the gate did not observe it")
     # ---- overlapping Appends to one asset of the repository that is guarded for concurrent use (RepositoryOverlap.tla)
-    A, K, R = (2, 2, 2) if tier == "quick" else (3, 2, 2)
-    ocfg = "CONSTANTS A = %d K = %d MaxReads = %d\nSPECIFICATION Spec\nCHECK_DEADLOCK FALSE\nINVARIANTS Visible NoLossNoDup Emit\n" % (A, K, R)
-    ro = vlib.run_tlc({"RepositoryOverlap.tla": None}, "RepositoryOverlap", ocfg, workers=4, timeout=2400, heap="6g")
-    states += ro.distinct
-    trans += ro.generated
-    if ro.violation:
-        machinery.append("spec/RepositoryOverlap.tla: %s violated in the model" % ro.violation)
-    scheds = [o for t, o in ro.prints if t == "SCHED"]
+    scheds = []
+    # (appenders, rows each, reads): measured 7.6 k schedules for (2,2,2); (3,2,2) has 12.9 M states and does not finish
+    for A, K, R in ([(2, 2, 2)] if tier == "quick" else [(2, 3, 2), (3, 1, 2)]):
+        ocfg = "CONSTANTS A = %d K = %d MaxReads = %d\nSPECIFICATION Spec\nCHECK_DEADLOCK FALSE\nINVARIANTS Visible NoLossNoDup Emit\n" % (A, K, R)
+        ro = vlib.run_tlc({"RepositoryOverlap.tla": None}, "RepositoryOverlap", ocfg, workers=4, timeout=2400, heap="6g")
+        states += ro.distinct
+        trans += ro.generated
+        if ro.violation:
+            machinery.append("spec/RepositoryOverlap.tla: %s violated in the model" % ro.violation)
+        scheds += [o for t, o in ro.prints if t == "SCHED"]
     if len(scheds) < 50:
         raise vlib.Machinery("RepositoryOverlap.tla emitted %d schedules" % len(scheds))
     wd = vlib.scratch("verif-c10o-")
